@@ -10,7 +10,8 @@ from .. import core, mgr, reqs, tlc
 from ..simdev import SimDevice, MODE_SIGNER, FaithfulBlockPolicy
 
 V5 = ["getPubKey", "sign_hash", "sign_legacy", "sign_segwit", "advanceBlockchain", "updateAncestorBlock",
-      "resetAdvanceBlockchain", "blockchainState", "blockchainParameters", "signerHeartbeat", "uiHeartbeat"]
+      "resetAdvanceBlockchain", "blockchainState", "blockchainParameters", "signerHeartbeat", "uiHeartbeat",
+      "uiHeartbeat@uihb"]     # the same command arriving while the device already is in UI-heartbeat mode
 V1 = ["getPubKey", "sign_v1"]
 
 NAMED = [0x6A87, 0x6A88, 0x6A89, 0x6A8A, 0x6A8B, 0x6A8C, 0x6A8D, 0x6A8E, 0x6A8F, 0x6A90, 0x6A91, 0x6A92,
@@ -61,7 +62,7 @@ class Bench:
         self.reqs = {}
         for c in (V5 if version == 2 else V1):
             rng = random.Random("c04:" + c)
-            req = reqs.make(c, rng, 5 if version == 2 else 1)[0]
+            req = reqs.make(c.split("@")[0], rng, 5 if version == 2 else 1)[0]
             if c == "advanceBlockchain":
                 # make sure brothers are exercised: two blocks, brothers on the first
                 bl = reqs.blocks(rng, 2, True, bro_counts=[2, 0])
@@ -95,14 +96,20 @@ class Bench:
             self.proto.hsm2dongle.connect()
         del self.world.log[:]
 
-    def _dry(self, c):
+    def prepare(self, c):
         self.reset()
+        if c.endswith("@uihb"):
+            from ..simdev import MODE_UIHB
+            self.world.device.mode = MODE_UIHB
+
+    def _dry(self, c):
+        self.prepare(c)
         o = mgr.handle_line(self.proto, self.reqs[c])
         assert o.reply() and o.reply().get("errorcode") == 0, (c, o.raw)
         return [step_kind(c, e["apdu"]) for e in self.world.log if e["ev"] == "apdu"]
 
     def run(self, c, idx, fault):
-        self.reset()
+        self.prepare(c)
         if fault is not None:
             self.world.faults = {idx: fault}
         o = mgr.handle_line(self.proto, self.reqs[c])
@@ -123,7 +130,7 @@ def _bench(version):
 
 def cell(version, c, step, kind, sw, out):
     code, has, shut = out
-    name = "sign_hash" if c == "sign_v1" else c
+    name = "sign_hash" if c == "sign_v1" else c.split("@")[0]
     return {"v1": version == 1, "cmd": name, "step": step, "kind": kind, "sw": sw, "code": code,
             "hascode": has, "shutdown": shut}
 
